@@ -106,7 +106,7 @@ class DiGraph:
         else:
             dtype = bool
         self.csgraph = sparse.csr_matrix(adj_matrix, dtype=dtype)
-        if self.csgraph.nnz != self.csgraph.count_nonzero():
+        if np.any(self.csgraph.data == 0):
             # Explicitly stored zeros of a sparse input are not edges
             self.csgraph = self.csgraph.copy()
             self.csgraph.eliminate_zeros()
